@@ -219,11 +219,12 @@ def _execute(case, prefix, seed):
     boot.urandom.reset(seed, b"c14-exec")
     g = grid.Grid(S, nclients=2, chooser=ch, client_kw=dict(k=K, n=n, happy=1))
     viol, obs = [], {}
+    ms.bound_pending(g)
     try:
         for sh, st in enumerate(assign):
             ms.write_share(g, si, prep["server"][sh], sh, build(prep, sh, st))
         if extra:
-            ms.write_share(g, si, prep["spare"][0], 0, ms.container(prep["blob"][extra][0], ms.share_data(prep["blob"][extra][0])))
+            ms.write_share(g, si, prep["spare"][0], 0, ms.rehome(prep["blob"][extra][0], prep["spare"][0], prep["cap_w"]))
         t = truth(prep, assign, verify, extra)
         desc = "%s 2-of-%d slots=%r%s verify=%r %s%s" % (fmt, n, assign, " + a second copy of share 0 in state %s on a %dth server" % (extra, S) if extra else "", verify, mode, " (CPU-pool results delivered in a later reactor turn, as in production)" if case.get("cpu") == "async" else "")
         v3_is_best = bool(t["bests"]) and all(b == prep["vid"]["v3"] for b in t["bests"])
@@ -264,6 +265,8 @@ def _execute(case, prefix, seed):
                 obs["car"] = kind
                 if kind == "hang":
                     viol.append(("check-and-repair-never-completes", desc))
+                elif kind == "err:HarnessError":
+                    viol.append(("retrieve-spins-on-damaged-duplicate-share", "%s: check_and_repair() never returns to the reactor: %s" % (desc, val.getErrorMessage()[:160])))
                 elif kind == "ok":
                     judge_check(val.get_pre_repair_results(), "check_and_repair.pre")
                     obs["repair"] = "attempted=%s successful=%s" % (val.get_repair_attempted(), val.get_repair_successful() if val.get_repair_attempted() else None)
@@ -281,6 +284,8 @@ def _execute(case, prefix, seed):
                         viol.append(("check-changed-shares", desc))
                     kind, rr = outcome_of(g.wait(node.repair(cr, force=forced), explore=False))
                     g.quiesce()
+                    if kind == "err:HarnessError":
+                        viol.append(("retrieve-spins-on-damaged-duplicate-share", "%s: the download inside repair() never returns to the reactor (it re-activates the same damaged share for ever, one advise_corrupt_share call per round): %s" % (desc, rr.getErrorMessage()[:160])))
                     if kind == "ok":
                         success = bool(rr.get_successful())
                         obs["repair"] = "ok successful=%s" % success
